@@ -7,21 +7,38 @@ from props import c11_oracle as O
 MANIFEST = {
     "text": "Lean theorems about M, the transcription of libcoap's observer handling (coap_add_observer, the notify loop with "
             "NSTART back-pressure and the NON/CON choice, every removal path, resource deletion, retransmission give-up, idle "
-            "session reclaim): reregistration_replaces by induction over ALL event sequences (no two entries of a session "
-            "with one token or one cache key); observe_strictly_increasing (24-bit serial arithmetic, < 2^23 changes between two "
-            "values, across the wrap); every_sixth_con over the extracted COAP_OBS_MAX_NON; notification_per_observer(_loop), "
-            "latest_eventually_notified (no lost wake-up; fairness hypothesis explicit), no_notification_after_cancel and its "
-            "siblings for error response / session loss / resource deletion, notes_only_to_listed. M is tied to the compiled "
-            "code by exact trace equality on an H-sim harness (real server context, 1..3 resources, 1..4 real client "
+            "session reclaim), stated as GLOBAL invariants over ALL event sequences (induction over run; every step is "
+            "decomposed resource-by-resource into micro transitions, Lemmas/ObserveRun.lean): reregistration_replaces (no two "
+            "entries of a session with one token or one cache key); observe_strictly_increasing_run (of any two notifications of "
+            "a run to one (session, token, resource) the later reports a strictly later state — between two notifications the "
+            "counter HAS advanced — and its Observe value is greater in 24-bit serial arithmetic when < 2^23 changes lie "
+            "between, across the wrap); every_sixth_con_run(_init) (every window of COAP_OBS_MAX_NON+1 consecutive notifications "
+            "to an entry within one registration epoch contains a CON; extracted constant, D8); no_notification_while_absent + "
+            "one run-level theorem per deregistration cause (Observe=1, failed CON = retransmission give-up, error response to "
+            "the request / while notifying, session loss, resource deletion; Reset: _partial, open finding); ref_eq_holders "
+            "(ref = observer entries + queued nodes in every reachable state) hence session_alive_while_observed / "
+            "idle_reclaim_keeps_observed; latest_eventually_notified_run (no lost wake-up: a stale entry keeps observe_pending and "
+            "the resource flag set in every reachable state; a non-stale entry has been sent the current state; explicit fairness "
+            "hypothesis: not back-pressured when the walk reaches it => the I/O step writes the latest state). M is tied to the "
+            "compiled code by exact trace equality on an H-sim harness (real server context, 1..3 resources, 1..4 real client "
             "contexts, virtual clock, scripted network): every datagram, every subscriber list, counter, flag, session "
             "ref/con_active/tx_mid and send-queue deadline after every event; the implementation's trace is in addition "
             "judged directly against the property by an oracle that never looks at M.",
-    "note": "partial: notification bodies needing block-wise transfer rely on C09 (not exercised here); the per-observer "
-            "ordering across the dirty flags and the reference-count equation ref = entries + queued nodes are checked on every "
-            "event of every history by T2/the oracle, their Lean statements are the local lemmas + "
-            "session_alive_while_observed_partial; open finding rst_of_superseded_notification_ignored. Trusted: Lean kernel "
-            "(+ propext, Classical.choice, Quot.sound), T1 extractor, harness/observe.c + sim_core.h, generators, the oracle, "
-            "the hand transcription M (checked on the cases run only); SHA-256 cache key assumed injective.",
+    "note": "partial: (i) Reset — no_notification_after_reset_run_partial covers a Reset naming a queued CON or the entry's "
+            "latest message id; a Reset of an earlier NON notification is ignored by the code (open finding "
+            "rst_of_superseded_notification_ignored, decided witness). (ii) notification bodies needing block-wise transfer: "
+            "the lg_xmit deferral branch of coap_notify_observers is NOT in M; that scenario is judged on the implementation's "
+            "trace by the oracle only (corpus/C11/blockwise.txt, tag latest-not-notified-blockwise, see design/C11.md), block transfer "
+            "itself is C09. (iii) the < 2^23 hypothesis of "
+            "observe_strictly_increasing_run is on the ghost version counter (number of effective changes); "
+            "observe_strictly_increasing_run_events states it on the events (fewer than 2^23 chg/del events in the run). (iv) "
+            "'eventually' is proved as progress: every fair I/O step (fewer than NSTART CONs of the session in flight) tells the "
+            "session's first stale entry the latest state and strictly decreases the number of stale entries "
+            "(fair_step_decreases_stale), ACK / I/O events never add one (quiet_events_never_add_stale); the iteration over an "
+            "infinite fair schedule is not formalised as a temporal-logic theorem. Retransmissions (tag rtx) of a CON written before a deregistration are not cancelled by "
+            "coap_delete_observer and are not counted as new notifications. Trusted: Lean kernel (+ propext, Classical.choice, "
+            "Quot.sound), T1 extractor, harness/observe.c + sim_core.h, generators, the oracle, the hand transcription M "
+            "(checked on the cases run only); SHA-256 cache key assumed injective; resource ids pairwise distinct (IdsNodup).",
     "design_ref": "DESIGN.md §4 C11, design/C11.md",
 }
 LEAN_MODULES = ["CoapVerif.Props.C11"]
@@ -30,25 +47,52 @@ REQUIRED_THEOREMS = ["reregistration_replaces", "observe_strictly_increasing", "
                      "notification_per_observer_loop", "latest_eventually_notified", "no_notification_after_cancel",
                      "no_notification_after_error_response", "no_notification_after_session_loss",
                      "no_notification_after_resource_deletion", "notes_only_to_listed", "obsNext_matches_code",
-                     "constants_in_range", "reclaim_keeps_referenced"]
+                     "constants_in_range", "reclaim_keeps_referenced",
+                     # global (run-level) statements
+                     "observe_strictly_increasing_run", "every_sixth_con_run", "every_sixth_con_run_init", "nonCnt_in_range",
+                     "ref_eq_holders", "ref_eq_holders_init", "session_alive_while_observed", "session_alive_while_queued",
+                     "idle_reclaim_keeps_observed", "no_notification_while_absent", "no_notification_after_cancel_run",
+                     "no_notification_after_reset_run_partial", "no_notification_after_failed_notify_run",
+                     "no_notification_after_error_response_run", "no_notification_after_error_notification_run",
+                     "no_notification_after_session_loss_run", "no_notification_after_resource_deletion_run",
+                     "deregistration_invariants_init", "stale_entry_keeps_wakeup", "clean_entry_holds_latest",
+                     "latest_eventually_notified_run", "fair_when_acknowledged", "fair_when_non", "wake_holds_initially",
+                     "fair_when_first_stale", "latest_eventually_notified_first_stale", "observe_strictly_increasing_run_init",
+                     "no_notification_after_session_loss_run_any", "reachable_invariants_init",
+                     "observe_strictly_increasing_run_events", "staleOf_zero_iff", "quiet_events_never_add_stale",
+                     "fair_step_decreases_stale"]
 RULE = ("event histories (8..90 events + optional fair tail) over 1..3 observable resources (default / NOTIFY_CON / NOTIFY_NON / "
         "NOTIFY_NON_ALWAYS, Observe counter started at 0, mid-range, and just below 2^23 / 2^24 so that it wraps) and 1..4 real "
         "clients: register / re-register (same token, other token same query, other query) / Observe=1 cancel / plain GET with CON "
         "and NON requests, bursts of changes between I/O steps, I/O steps, time advances across every retransmission deadline and "
         "the idle session timeout, ACK or RST of the k-th most recent notification (never = loss, later = delay, again = "
-        "duplicate), handler starts answering 4.04, server-side session loss, resource deletion; non-trivial = a history in which "
-        "the server sent at least one notification")
+        "duplicate), handler starts answering 4.04, server-side session loss, resource deletion; about 12 % of the histories use a "
+        "resource whose representation needs block-wise transfer (body of 2.5 blocks at SZX none/0/1/2/4/6, default or NOTIFY_CON "
+        "flags): register, change, I/O step (first block of the notification), the client fetches 0..all further blocks with GET "
+        "Block2 num=k and no Observe option, further changes within 2 s of the last block request while blocks are outstanding "
+        "(libcoap's lg_xmit deferral branch), background events, then a block-wise fair tail (fetch the rest or go silent, ACK "
+        "every CON, 5 x 2001 ms with the I/O loop, io io io); these lines are judged by the oracle only; non-trivial = a history "
+        "in which the server sent at least one notification")
 TRUSTED_BASE = ["Lean 4.33 kernel; axioms allowed: propext, Classical.choice, Quot.sound (audited per theorem each run)",
                 "T1 extractor extract/obsconst.c (constants as compiled, the counter's successor function by evaluation)",
                 "harness/observe.c on harness/sim_core.h (virtual clock, scripted network), generators, string comparison",
                 "props/c11_oracle.py: the property judged on the implementation's trace",
-                "M (CoapVerif/Model/Observe.lean) is a hand transcription; checked against the compiled code only on the cases run"]
+                "M (CoapVerif/Model/Observe.lean) is a hand transcription; checked against the compiled code only on the cases run",
+                "Driver/Observe.lean answers block-wise lines with a fixed marker instead of a replay (recognised from the input line)"]
 ASSUMPTIONS = ["the observe cache key (SHA-256 over the request's cache-key options) is injective on the option lists used",
                "allocation failures and send errors inside the notify loop are not modelled (C18)",
-               "no block-wise notification bodies (C09), UDP only, one endpoint, NSTART = 1 as extracted",
+               "block-wise notification bodies: lg_xmit and the deferral of a notification behind a block-wise transfer in progress "
+               "are not in M; such histories are judged on the implementation's trace by the oracle only, block transfer itself "
+               "(block contents, ETag, sizes) is C09; UDP only, one endpoint, NSTART = 1 as extracted",
+               "fairness for block-wise histories: the server may hold a notification back while anything with a Block2 option went "
+               "to the same client within the last 2000 ms (libcoap's window, constant BLOCK_WAIT_MS in the oracle, not "
+               "T1-extracted); afterwards, with no CON outstanding and the I/O loop run, the first block of the latest state must "
+               "have been sent",
                "a token used by a client on two resources at once, or re-used with another query, makes 'the observation' ambiguous: "
                "the oracle then follows the server's table for that token (the tie M = I still covers it)",
-               "compiled Lean definitions agree with the kernel's reading of them"]
+               "compiled Lean definitions agree with the kernel's reading of them",
+               "global theorems: the resources of a state carry pairwise distinct ids (IdsNodup; they are the keys of the context's "
+               "resource table, the harness numbers them 0..n-1) — modRes/findRes address a resource by id"]
 SPEC_DECISIONS = ["D8 every_sixth_con is stated for resources without COAP_RESOURCE_FLAGS_NOTIFY_NON_ALWAYS",
                   "D13 a (re-)registration response carries the counter's current value: it may equal the neighbouring notification's "
                   "number iff no change was signalled in between; strictness is required among change notifications",
@@ -142,11 +186,114 @@ def gen_req(rng, op, ncli, nres, mids):
                                      rng.choice("CCN"), mids[c])
 
 
+BLOCK_SHARE = 0.12      # share of the histories that use a block-wise resource (judged by the oracle only, not replayed through M)
+
+
+def gen_block_history(rng):
+    """A history around a notification body larger than one block (harness/observe.c: resource kind `b`): register, change,
+    I/O step (the first block of the notification goes out), the client fetches 0..all further blocks, another change within
+    2 s of the last block request while blocks are outstanding (libcoap holds that notification back: the lg_xmit deferral
+    branch of coap_notify_observers), random events, then the block-wise FAIR TAIL: the client fetches the rest or goes silent,
+    every Confirmable is acknowledged, time passes in steps of more than 2 s with the I/O loop running, `io io io`."""
+    st = rng.choice([20, 30, 300])
+    nres = rng.choice([1, 1, 1, 2])
+    ncli = rng.choice([1, 1, 2, 3])
+    szx = [rng.choice([None, 0, 0, 0, 1, 2, 4, 6]) for _ in range(nres)]
+    kinds = [rng.choice("bbbB")] + [rng.choice("bbBdc") for _ in range(nres - 1)]
+    rng.shuffle(kinds)
+    rs = ",".join("%s%d%s" % (m, rng.choice(STARTS), "/%d" % z if m in "bB" and z is not None else "") for m, z in zip(kinds, szx))
+    bidx = [r for r in range(nres) if kinds[r] in "bB"]
+    mids = [rng.randrange(0, 65536) for _ in range(ncli)]
+    obs = []          # (client, resource, token index, query) registered by the scripted part
+    evs = []
+
+    def mid(c):
+        mids[c] = (mids[c] + 1) % 65536
+        return mids[c]
+
+    def blk(c, r, t, q, num):
+        return "blk:%d:%d:%d:%d:%s:%d:%d" % (c, r, t if rng.random() < 0.6 else rng.choice([7, 8, 9]), q, rng.choice("CCN"), mid(c), num)
+
+    def small_gap():
+        if rng.random() < 0.6:
+            evs.append("adv:%d" % rng.choice([0, 1, 100, 500, 1000, 1500, 1900, 1999]))
+
+    for c in range(ncli):
+        for _ in range(rng.choice([1, 1, 1, 2])):
+            r = rng.choice(bidx) if rng.random() < 0.85 else rng.randrange(nres)
+            t, q = rng.choice([1, 2, 3]), rng.choice([0, 0, 1, 2])
+            evs.append("reg:%d:%d:%d:%d:%s:%d" % (c, r, t, q, rng.choice("CCN"), mid(c)))
+            obs.append((c, r, t, q))
+    # the registration response is itself a body in progress: fetch its rest, wait it out, or leave it open
+    x = rng.random()
+    if x < 0.35:
+        for (c, r, t, q) in obs:
+            if r in bidx:
+                evs += [blk(c, r, t, q, 1), blk(c, r, t, q, 2)]
+    elif x < 0.7:
+        evs.append("adv:%d" % rng.choice([2000, 2001, 2500, 5000]))
+    for _ in range(rng.choice([1, 1, 2, 3])):
+        r = rng.choice(bidx)
+        evs += ["chg:%d" % r] * rng.choice([1, 1, 2])
+        evs.append("io")                                     # first block of the notification (or held back)
+        for c in range(ncli):
+            if rng.random() < 0.7:
+                evs.append("ack:%d:%d" % (c, 1000))
+        for (c, r2, t, q) in obs:                             # the client fetches 0..all further blocks
+            if r2 == r:
+                for num in range(1, 1 + rng.choice([0, 0, 1, 1, 2, 2])):
+                    small_gap()
+                    evs.append(blk(c, r, t, q, num))
+        small_gap()
+        evs += ["chg:%d" % r] * rng.choice([1, 1, 1, 2, 3])   # changes while blocks are outstanding
+        evs.append(rng.choice(["io", "io", "adv:100", "adv:1999", "adv:2000", "adv:2001"]))
+    for _ in range(rng.choice([0, 0, 2, 5, 10])):             # background noise from the general alphabet
+        x = rng.random()
+        if x < 0.2:
+            evs.append("chg:%d" % rng.randrange(nres))
+        elif x < 0.35:
+            evs.append("io")
+        elif x < 0.5:
+            evs.append("adv:%d" % rng.choice(ADV))
+        elif x < 0.62:
+            evs.append("ack:%d:%d" % (rng.randrange(ncli), note_index(rng)))
+        elif x < 0.68:
+            evs.append("rst:%d:%d" % (rng.randrange(ncli), note_index(rng)))
+        elif x < 0.78:
+            evs.append(gen_req(rng, rng.choice(["reg", "reg", "can", "get"]), ncli, nres, mids))
+        elif x < 0.9 and obs:
+            c, r, t, q = rng.choice(obs)
+            if r in bidx:
+                evs.append(blk(c, r, t, q, rng.choice([0, 1, 1, 2, 2, 3, 200])))
+        elif x < 0.93:
+            evs.append("err:%d:%d" % (rng.randrange(nres), rng.choice([0, 1])))
+        elif x < 0.96:
+            evs.append("lost:%d" % rng.randrange(ncli))
+        else:
+            evs.append("del:%d" % rng.randrange(nres))
+    if rng.random() < 0.85:
+        # block-wise fair tail
+        if rng.random() < 0.5:
+            for (c, r, t, q) in obs:                          # the client finishes what is in progress ...
+                if r in bidx:
+                    evs += [blk(c, r, t, q, 1), blk(c, r, t, q, 2)]
+        for _ in range(5):                                    # ... or goes silent; either way: ACKs, > 2 s, I/O loop, repeated
+            for c in range(ncli):                             # once per observation that may be queueing behind another one
+                for k in range(3):
+                    evs.append("ack:%d:%d" % (c, 1000 + k))
+            evs.append("adv:2001")
+        for c in range(ncli):
+            for k in range(3):
+                evs.append("ack:%d:%d" % (c, 1000 + k))
+        evs += ["io", "io", "io"]
+    return "obs st=%d R=%s C=%d %s" % (st, rs, ncli, " ".join(evs))
+
+
 def generate(ctx, escalate=False):
     n = 40000 if ctx.thorough() else 2000
     if escalate:
         n *= 3
-    return [gen_history(ctx.rng) for _ in range(n)]
+    return [gen_block_history(ctx.rng) if ctx.rng.random() < BLOCK_SHARE else gen_history(ctx.rng) for _ in range(n)]
 
 
 def strip_client(s):
@@ -180,6 +327,12 @@ def judge(ctx, c):
     real = [v for v in viol if v[0] not in O.KNOWN_TAGS]
     if real:
         return ("spec", "[%s] %s" % real[0])
+    if O.is_blockwise(c["input"]):
+        # a line with a block-wise resource (recognised from the INPUT) is not replayed through M: the driver must say so with
+        # its fixed marker, and the implementation's trace is judged by the oracle alone (above)
+        if m != O.NOT_MODELLED:
+            return ("tie", "block-wise line: the driver must answer `%s`, it says `%s`" % (O.NOT_MODELLED, (m or "")[:100]))
+        return ("spec", "[%s] %s" % viol[0]) if viol else None
     if m is None or strip_client(i) != m:
         return ("tie", first_diff(strip_client(i), m or ""))
     if viol:
@@ -252,6 +405,9 @@ def classify(c):
     if " n" in i: k.append("notified")
     if ":C:" in i: k.append("con")
     if " x" in i: k.append("rtx")
+    if O.is_blockwise(c["input"]):
+        k.append("blockwise")
+        if O.held_back_behind_blocks(i): k.append("held-back")      # coverage only: the lg_xmit deferral branch was taken
     if ".1." in i: pass
     return "+".join(k) or "quiet"
 
@@ -263,5 +419,5 @@ def search(ctx, tie_breaks, proof):
         w = c["input"].split()
         for cut in range(5, len(w) + 1, max(1, len(w) // 12)):
             out.append(" ".join(w[:cut] + ["io", "io", "io"]))
-    out += [gen_history(ctx.rng) for _ in range(4000)]
+    out += [gen_block_history(ctx.rng) if ctx.rng.random() < BLOCK_SHARE else gen_history(ctx.rng) for _ in range(4000)]
     return out
